@@ -1,9 +1,10 @@
 From Coq Require Import Extraction ExtrOcamlBasic.
-From Mamba Require Import Graph.Model Graph.CtorModel.
+From Mamba Require Import Graph.Model Graph.CtorModel Graph.CtorDecodeModel.
 Extraction Language OCaml.
 Extraction "model.ml" new_dense new_sparse complete_graph complete_partite path cycle star
   flower_snark hypercube folded_hypercube kneser bipartite_kneser circulant circulant_bipartite
   generalised_petersen friendship random_graph random_tree prufer_decode multicode_decode
   induced_view g_N g_M g_degrees g_neighbours g_is_edge complement_dense line_graph rook
   split_edge contract e_val add_edges sparse_of_edges d_empty
-  h_new_dense h_view h_write h_new_sparse hs_view hn_write.
+  h_new_dense h_view h_write h_new_sparse hs_view hn_write
+  graph6_decode_graph sparse6_decode_graph.
